@@ -76,6 +76,9 @@ func run(c *hc.Ctx) error {
 	var q c04shared.Queue
 	n := c.N(20000, 1000000)
 	for i := 0; i < n; i++ {
+		if err := q.MaybeFlush(c); err != nil {
+			return err
+		}
 		key, iv := r.Bytes(32), r.Bytes(32)
 		if r.Chance(3) {
 			key = make([]byte, 32)
@@ -158,7 +161,7 @@ func run(c *hc.Ctx) error {
 		}
 		line := fmt.Sprintf("dec %s %s %s %s", nilFlag, hc.Hex(data), hc.Hex(key), hc.Hex(iv))
 		dst, err, p := decryptSafe(data, key, iv)
-		c.Eval(line, kind != "malformed")
+		c.Eval(kind+" "+c04shared.Sig(line), kind != "malformed")
 		impl := ""
 		switch {
 		case p != nil:
